@@ -218,6 +218,26 @@ pub fn run() -> i32 {
                 }
             }
         }
+        for mac in 0..=5u8 {
+            for nn in 0..=3u8 {
+                for bits in 0..8u8 {
+                    crate::sym::load(vec![vec![mac], vec![nn], vec![bits]]);
+                    n += 1;
+                    if std::panic::catch_unwind(|| crate::node::c10_macro()).is_err() {
+                        c11_bad += 1;
+                        eprintln!("SELFTEST-FAIL: c10_macro reference disagrees with the evaluator: macro={} n={} bits={}", mac, nn, bits);
+                    }
+                }
+            }
+        }
+        for pos in 0..=9u8 {
+            crate::sym::load(vec![vec![pos]]);
+            n += 1;
+            if std::panic::catch_unwind(|| crate::node::c19_references()).is_err() {
+                c11_bad += 1;
+                eprintln!("SELFTEST-FAIL: c19_references disagrees with the implementation at position {}", pos);
+            }
+        }
         // call nodes
         for nargs in 0..=3u8 {
             for bits in 0..8u8 {
